@@ -67,6 +67,8 @@ ENGINE_LIFE = [
     "main=listen,peer:1,peer:2,waitn:2,setflag:g,psend:1:4,pclose:2,psend:1:4 ; a=waitflag:g,close:2,send:1:3 ; b=waitflag:g,close:1,close:2",
     "main=listen,connect,waitn:2,setflag:g,close:1 ; a=waitflag:g,close:2,send:1:2 ; b=waitflag:g,send:2:7,close:1",
     "main=listen,setflag:g,connect,close:0,connect ; a=waitflag:g,connect,close:0,close:0 ; b=waitflag:g,peer:1,psend:1:3,pclose:1",
+    # connects the kernel refuses inside the system call (no session is ever created): still exactly one close each
+    "main=listen,connectto:224.0.0.1,connectto:255.255.255.255,connect,connectto:239.1.2.3,waitn:1,close:0 ; a=connectto:224.0.0.1,close:0",
 ]
 
 
